@@ -716,7 +716,7 @@ fn real_load(buf: &Vec<u8>, size: u64) -> String {
     r.unwrap_or_else(|_| "panic".into())
 }
 
-fn load_streams(driver: &Driver, seed: u64, thorough: bool, rep: &mut Report) {
+pub fn load_streams(driver: &Driver, seed: u64, thorough: bool, rep: &mut Report) {
     for (name, outside) in [("c17.load", false), ("c17.load.outside", true)] {
         let mut st = Stream::new(name, !outside);
         let n = if thorough { 20_000 } else { 400 };
